@@ -19,6 +19,16 @@
  *   setup  context, two endpoints, resources with attributes, unknown-resource handler, client session; tear-down
  *   osc    OSCORE protected CON GET (coap_context_oscore_server / coap_new_client_session_oscore)
  *   h508   server answers 5.08 with diagnostic payload (the Hop-Limit branch of coap_send_internal)
+ *   wkc    server with 12 more resources with attributes; GET /.well-known/core without and with a filter (rt=temp*, a
+ *          filter matching nothing), libcoap block mode on both sides: the listing is sent block-wise, all blocks fetched
+ *   b1raw  Block1 PUT of 2500 bytes in five 512-byte blocks BUILT BY HAND (client block mode off, no Size1) to a
+ *          COAP_BLOCK_USE_LIBCOAP|COAP_BLOCK_SINGLE_BODY server: in order, then in the order 0,2,1,4,3 (last block early)
+ *   b2raw  client in libcoap block mode fetches 2500 bytes from a HAND-WRITTEN Block2 server side (server block mode off,
+ *          512-byte blocks, NO Size2): without ETag, with ETag, with an ETag that changes once during the transfer
+ *   obsblk observe registration + two notifications + cancel of a resource whose 2500-byte body needs 3 blocks
+ *   cache  coap_cache_ignore_options (twice), coap_cache_derive_key(_w_ignore), coap_new_cache_entry with recorded PDU and
+ *          application data + free callback (in a request handler and directly), lookup by key / by PDU, expiry, tear-down
+ *   async  coap_register_async with an indefinite delay + coap_async_trigger, and with a 1.5 s delay run by the timer
  *
  * output (alloc):
  *   n=<requests seen> fail=<type>@<hex site>[,<type>@<hex site>] out=<visible outcome> sends=<per coap_send: ok|inv + f|q>
@@ -222,7 +232,14 @@ static coap_session_t *cs;
 static coap_resource_t *r_obs;
 static int w_oscore;
 static int w_block = 1;           /* libcoap's block handling on both contexts (off for the helper scripts) */
+static int w_srv_block = 1, w_cli_block = 1;   /* per scenario: the hand-written side of b1raw / b2raw has it off */
 static uint8_t body[2500];
+static uint8_t obody[2500];       /* body of the observable block-wise resource: body with obody[0] = generation */
+/* what a 2.05 body handed to the client application must be: strict = every 2.05 (but the canary's), else only len > 100 */
+static const uint8_t *exp_body = body;
+static size_t exp_len = sizeof(body);
+static int exp_strict;
+static uint8_t exp_buf[8192];
 
 static const sim_dgram_t *pending[256];
 static int npending;
@@ -320,8 +337,19 @@ static coap_response_t on_response(coap_session_t *session, const coap_pdu_t *se
   (void)session; (void)sent; (void)mid;
   if (c_rsp < 16) c_codes[c_rsp] = coap_pdu_get_code(rcvd);
   c_rsp++;
-  if (coap_get_data_large(rcvd, &len, &data, &off, &total) && len > 100) {
-    if (off == 0 && len == sizeof(body) && !memcmp(data, body, len)) c_body_ok++; else c_body_bad++;
+  {
+    coap_bin_const_t tk = coap_pdu_get_token(rcvd);
+    int code = coap_pdu_get_code(rcvd);
+    int canary = tk.length == 2 && tk.s[0] == 0xca && tk.s[1] == 0xfe;
+    /* an error code (4.08 from the client's own block layer, 5.00) with the payload of one block is not a body */
+    if (exp_strict ? code == COAP_RESPONSE_CODE_CONTENT && !canary : COAP_RESPONSE_CLASS(code) == 2) {
+      if (!coap_get_data_large(rcvd, &len, &data, &off, &total)) { len = 0; off = 0; total = 0; }
+      if (!exp_strict && len <= 100) {}
+      /* visibly a fragment (offset / total say so): the application can tell, this is not "as if complete" */
+      else if (off != 0 || off + len < total) out_put("frag:%zu@%zu/%zu", len, off, total);
+      else if (len == exp_len && (!len || !memcmp(data, exp_body, len))) c_body_ok++;
+      else { c_body_bad++; out_put("badbody:%zu@%zu/%zu", len, off, total); }
+    }
   }
   return COAP_RESPONSE_OK;
 }
@@ -373,6 +401,89 @@ static void hnd_unknown(coap_resource_t *r, coap_session_t *s, const coap_pdu_t 
   coap_pdu_set_code(rsp, COAP_RESPONSE_CODE_CREATED);
 }
 
+/* block-wise observable resource: 2500 bytes (3 blocks of 1024) through libcoap's Block2 handling */
+static void hnd_obsbig(coap_resource_t *r, coap_session_t *s, const coap_pdu_t *req, const coap_string_t *q, coap_pdu_t *rsp) {
+  s_req++;
+  coap_pdu_set_code(rsp, COAP_RESPONSE_CODE_CONTENT);
+  if (!coap_add_data_large_response(r, s, req, rsp, q, COAP_MEDIATYPE_APPLICATION_OCTET_STREAM, -1, 0, sizeof(obody), obody, NULL, NULL))
+    coap_pdu_set_code(rsp, COAP_RESPONSE_CODE_INTERNAL_ERROR);
+}
+/* HAND-WRITTEN Block2 server side (the server context has libcoap's block handling off): 512-byte blocks, no Size2;
+ * resource userdata: 0 = no ETag, 1 = ETag, 2 = the ETag changes once, after the second block has been served */
+static int raw2_served;
+static void hnd_raw2(coap_resource_t *r, coap_session_t *s, const coap_pdu_t *req, const coap_string_t *q, coap_pdu_t *rsp) {
+  coap_block_t b;
+  uint8_t buf[4], etag[2];
+  size_t off, len;
+  int mode = (int)(intptr_t)coap_resource_get_userdata(r), m;
+  (void)s; (void)q;
+  s_req++;
+  memset(&b, 0, sizeof(b));
+  if (!coap_get_block(req, COAP_OPTION_BLOCK2, &b)) { b.num = 0; b.szx = 5; }
+  if (b.szx != 5) { coap_pdu_set_code(rsp, COAP_RESPONSE_CODE_BAD_REQUEST); return; }
+  off = (size_t)b.num << 9;
+  if (off >= sizeof(body)) { coap_pdu_set_code(rsp, COAP_RESPONSE_CODE_BAD_REQUEST); return; }
+  len = sizeof(body) - off > 512 ? 512 : sizeof(body) - off;
+  m = off + len < sizeof(body);
+  coap_pdu_set_code(rsp, COAP_RESPONSE_CODE_CONTENT);
+  if (mode) {
+    etag[0] = 0xe0; etag[1] = (uint8_t)(mode == 2 && raw2_served >= 2 ? 2 : 1);
+    if (mode == 2) raw2_served++;
+    if (!coap_add_option(rsp, COAP_OPTION_ETAG, 2, etag)) goto fail;
+  }
+  if (!coap_add_option(rsp, COAP_OPTION_BLOCK2, coap_encode_var_safe(buf, sizeof(buf), (b.num << 4) | (unsigned)(m << 3) | 5), buf)) goto fail;
+  if (!coap_add_data(rsp, len, body + off)) goto fail;
+  return;
+fail:
+  coap_pdu_set_code(rsp, COAP_RESPONSE_CODE_INTERNAL_ERROR);
+}
+/* cache: the handler keeps one cache entry per request (recorded PDU + application data owned by the entry) */
+static int cache_cb, cache_live;
+static void cache_free_cb(void *d) { cache_cb++; cache_live--; free(d); }
+static void hnd_cache(coap_resource_t *r, coap_session_t *s, const coap_pdu_t *req, const coap_string_t *q, coap_pdu_t *rsp) {
+  coap_cache_entry_t *e;
+  (void)r; (void)q;
+  s_req++;
+  e = coap_cache_get_by_pdu(s, req, COAP_CACHE_NOT_SESSION_BASED);
+  if (e) {
+    int *cnt = (int *)coap_cache_get_app_data(e);
+    const coap_pdu_t *kept = coap_cache_get_pdu(e);
+    uint8_t v[2];
+    v[0] = (uint8_t)('0' + (cnt ? ++*cnt : 0));
+    v[1] = kept ? 'p' : '-';
+    coap_pdu_set_code(rsp, COAP_RESPONSE_CODE_CONTENT);
+    if (!coap_add_data(rsp, 2, v)) coap_pdu_set_code(rsp, COAP_RESPONSE_CODE_INTERNAL_ERROR);
+    return;
+  }
+  e = coap_new_cache_entry(s, req, COAP_CACHE_RECORD_PDU, COAP_CACHE_NOT_SESSION_BASED, 2);
+  if (!e) { coap_pdu_set_code(rsp, COAP_RESPONSE_CODE_INTERNAL_ERROR); return; }
+  {
+    int *cnt = (int *)malloc(sizeof(int));
+    *cnt = 0; cache_live++;
+    coap_cache_set_app_data(e, cnt, cache_free_cb);
+  }
+  coap_pdu_set_code(rsp, COAP_RESPONSE_CODE_CREATED);
+}
+/* async: first call registers (query "t": indefinite delay, triggered by the scenario; else 1.5 s), the delayed call answers */
+static coap_async_t *g_async;
+static void hnd_async(coap_resource_t *r, coap_session_t *s, const coap_pdu_t *req, const coap_string_t *q, coap_pdu_t *rsp) {
+  coap_async_t *a;
+  (void)r;
+  s_req++;
+  a = coap_find_async(s, coap_pdu_get_token(req));
+  if (!a) {
+    int trig = q && q->length == 1 && q->s[0] == 't';
+    a = coap_register_async(s, req, trig ? 0 : 1500);
+    if (!a) { coap_pdu_set_code(rsp, COAP_RESPONSE_CODE_SERVICE_UNAVAILABLE); return; }
+    coap_async_set_app_data(a, (void *)"app");
+    if (trig) g_async = a;
+    return;                                             /* empty ACK, the response follows separately */
+  }
+  if (a == g_async) g_async = NULL;                    /* libcoap frees it after this call */
+  coap_pdu_set_code(rsp, COAP_RESPONSE_CODE_CONTENT);
+  if (!coap_async_get_app_data(a) || !coap_add_data(rsp, 2, (const uint8_t *)"as")) coap_pdu_set_code(rsp, COAP_RESPONSE_CODE_INTERNAL_ERROR);
+}
+
 static int add_res(const char *path, coap_request_t m, coap_method_handler_t h, int observable, coap_resource_t **out) {
   coap_resource_t *r = coap_resource_init(coap_make_str_const(path), 0);
   if (!r) return 0;
@@ -401,7 +512,7 @@ static int world_up(int oscore, int extras) {
   srv = coap_new_context(NULL);
   if (!srv) return 0;
   if (sim_nctx < SIM_MAX_CTX) sim_ctxs[sim_nctx++] = srv;
-  if (w_block) coap_context_set_block_mode(srv, COAP_BLOCK_USE_LIBCOAP | COAP_BLOCK_SINGLE_BODY);
+  if (w_block && w_srv_block) coap_context_set_block_mode(srv, COAP_BLOCK_USE_LIBCOAP | COAP_BLOCK_SINGLE_BODY);
   if (oscore) {
     coap_str_const_t c = { sizeof(osc_conf_srv) - 1, (const uint8_t *)osc_conf_srv };
     coap_oscore_conf_t *oc = coap_new_oscore_conf(c, NULL, NULL, 0);
@@ -433,7 +544,7 @@ static int world_up(int oscore, int extras) {
   cli = coap_new_context(NULL);
   if (!cli) return 0;
   if (sim_nctx < SIM_MAX_CTX) sim_ctxs[sim_nctx++] = cli;
-  if (w_block) coap_context_set_block_mode(cli, COAP_BLOCK_USE_LIBCOAP | COAP_BLOCK_SINGLE_BODY);
+  if (w_block && w_cli_block) coap_context_set_block_mode(cli, COAP_BLOCK_USE_LIBCOAP | COAP_BLOCK_SINGLE_BODY);
   coap_register_response_handler(cli, on_response);
   coap_register_nack_handler(cli, on_nack);
   sim_addr(&a, ntohs(ep->bind_addr.addr.sin.sin_port));
@@ -649,6 +760,194 @@ static void scn_pdu(void) {
   coap_delete_pdu(p); coap_delete_pdu(d); coap_delete_pdu(q);
 }
 
+/* 12 more resources with attributes: the listing is far longer than one 1024-byte block */
+static const struct { const char *path, *rt, *ifd, *title; int obs; } wk_res[12] = {
+  {"sensors/temp1", "\"temperature-c\"", "\"sensor\"", "\"Temperature sensor, first floor\"", 1},
+  {"sensors/temp2", "\"temperature-c\"", "\"sensor\"", "\"Temperature sensor, second floor\"", 0},
+  {"sensors/temp3", "\"temperature-f\"", "\"sensor\"", "\"Temperature sensor, outside (Fahrenheit)\"", 0},
+  {"sensors/light", "\"light-lux\"", "\"sensor\"", "\"Ambient light sensor in the entrance hall\"", 1},
+  {"sensors/hum", "\"humidity-rel\"", "\"sensor\"", "\"Relative humidity, basement storage room\"", 0},
+  {"act/led1", "\"led-rgb\"", "\"actuator\"", "\"Status LED on the front panel of the device\"", 0},
+  {"act/led2", "\"led-rgb\"", "\"actuator\"", "\"Status LED on the back panel of the device\"", 0},
+  {"act/relay", "\"relay\"", "\"actuator\"", "\"Mains relay, normally open, 16 A\"", 0},
+  {"cfg/net", "\"config\"", "\"core.p\"", "\"Network configuration parameters\"", 0},
+  {"cfg/time", "\"config\"", "\"core.p\"", "\"Time zone and NTP server settings\"", 0},
+  {"fw/update", "\"firmware\"", "\"core.b\"", "\"Firmware image upload (block-wise)\"", 0},
+  {"diag/log", "\"temperature-log\"", "\"core.ll\"", "\"Diagnostic log, most recent entries first\"", 0},
+};
+static int wkc_resources(void) {
+  for (int i = 0; i < 12; i++) {
+    coap_resource_t *r = coap_resource_init(coap_make_str_const(wk_res[i].path), 0);
+    int ok;
+    if (!r) return 0;
+    coap_register_request_handler(r, COAP_REQUEST_GET, hnd_get);
+    if (wk_res[i].obs) coap_resource_set_get_observable(r, 1);
+    ok = coap_add_attr(r, coap_make_str_const("rt"), coap_make_str_const(wk_res[i].rt), 0) &&
+         coap_add_attr(r, coap_make_str_const("if"), coap_make_str_const(wk_res[i].ifd), 0) &&
+         coap_add_attr(r, coap_make_str_const("title"), coap_make_str_const(wk_res[i].title), 0) &&
+         coap_add_attr(r, coap_make_str_const("ct"), coap_make_str_const("0"), 0);
+    coap_add_resource(srv, r);
+    if (!ok) return 0;
+  }
+  return 1;
+}
+/* the listing the server produces with memory available (coap_print_wellknown does not allocate) */
+static int wkc_expect(const char *filter) {
+  coap_string_t f;
+  size_t len = sizeof(exp_buf);
+  coap_print_status_t st;
+  f.s = (uint8_t *)(uintptr_t)filter; f.length = filter ? strlen(filter) : 0;
+  st = coap_print_wellknown(srv, exp_buf, &len, 0, filter ? &f : NULL);
+  if (st & COAP_PRINT_STATUS_ERROR) return 0;
+  exp_body = exp_buf; exp_len = COAP_PRINT_OUTPUT_LENGTH(st); exp_strict = 1;
+  return 1;
+}
+static void wkc_get(const char *filter, int tok) {
+  coap_pdu_t *p;
+  uint8_t t[2];
+  t[0] = 0x61; t[1] = (uint8_t)tok;
+  if (!wkc_expect(filter)) { out_put("expect-fail"); return; }
+  out_put("len%zu", exp_len);
+  p = new_req(COAP_MESSAGE_CON, COAP_REQUEST_CODE_GET, t, 2, ".well-known");
+  if (!p) { out_put("pdu-fail"); return; }
+  if (!coap_add_option(p, COAP_OPTION_URI_PATH, 4, (const uint8_t *)"core") ||
+      (filter && !coap_add_option(p, COAP_OPTION_URI_QUERY, strlen(filter), (const uint8_t *)filter))) {
+    out_put("opt-fail"); coap_delete_pdu(p); return;
+  }
+  tracked_send(cs, p);
+  settle(300000);
+}
+static void scn_wkc(void) {
+  if (!world_up(0, 0) || !wkc_resources()) { out_put("setup-fail"); return; }
+  wkc_get(NULL, 1);
+  wkc_get("rt=temp*", 2);
+  wkc_get("if=core.p", 3);
+  wkc_get("rt=nothing", 4);
+}
+/* one hand-built Block1 request: block num of the 2500-byte body in 512-byte blocks, no Size1 */
+static void raw_put_block(unsigned num, int tok) {
+  size_t off = (size_t)num << 9, len = sizeof(body) - off > 512 ? 512 : sizeof(body) - off;
+  unsigned m = off + len < sizeof(body);
+  uint8_t t[2], buf[4];
+  coap_pdu_t *p;
+  t[0] = 0x62; t[1] = (uint8_t)tok;
+  p = new_req(COAP_MESSAGE_CON, COAP_REQUEST_CODE_PUT, t, 2, "put");
+  if (!p) { out_put("pdu-fail"); return; }
+  if (!coap_add_option(p, COAP_OPTION_BLOCK1, coap_encode_var_safe(buf, sizeof(buf), (num << 4) | (m << 3) | 5), buf) ||
+      !coap_add_data(p, len, body + off)) { out_put("opt-fail"); coap_delete_pdu(p); return; }
+  tracked_send(cs, p);
+  settle(120000);
+}
+static void scn_b1raw(void) {
+  static const unsigned order2[5] = {0, 2, 1, 4, 3};
+  w_cli_block = 0;
+  if (!world_up(0, 0)) { out_put("setup-fail"); return; }
+  for (unsigned i = 0; i < 5; i++) raw_put_block(i, (int)i);
+  for (unsigned i = 0; i < 5; i++) raw_put_block(order2[i], 0x10 + (int)order2[i]);
+}
+static void scn_b2raw(void) {
+  static const char *const paths[3] = {"raw2", "raw2e", "raw2c"};
+  w_srv_block = 0;
+  if (!world_up(0, 0)) { out_put("setup-fail"); return; }
+  for (int i = 0; i < 3; i++) {
+    coap_resource_t *r = NULL;
+    if (!add_res(paths[i], COAP_REQUEST_GET, hnd_raw2, 0, &r)) { out_put("setup-fail"); return; }
+    coap_resource_set_userdata(r, (void *)(intptr_t)i);
+  }
+  exp_strict = 1;
+  for (int i = 0; i < 3; i++) {
+    uint8_t t[2];
+    coap_pdu_t *p;
+    t[0] = 0x63; t[1] = (uint8_t)i;
+    p = new_req(COAP_MESSAGE_CON, COAP_REQUEST_CODE_GET, t, 2, paths[i]);
+    if (!p) { out_put("pdu-fail"); continue; }
+    tracked_send(cs, p);
+    settle(300000);
+  }
+}
+static void scn_obsblk(void) {
+  coap_pdu_t *p;
+  uint8_t tok[2] = {0x64, 0x01};
+  coap_binary_t t = {2, tok};
+  coap_resource_t *r = NULL;
+  if (!world_up(0, 0) || !add_res("obsbig", COAP_REQUEST_GET, hnd_obsbig, 1, &r)) { out_put("setup-fail"); return; }
+  exp_body = obody; exp_len = sizeof(obody); exp_strict = 1;
+  p = new_req(COAP_MESSAGE_CON, COAP_REQUEST_CODE_GET, tok, 2, NULL);
+  if (!p) { out_put("pdu-fail"); return; }
+  if (!coap_add_option(p, COAP_OPTION_OBSERVE, 0, NULL) ||
+      !coap_add_option(p, COAP_OPTION_URI_PATH, 6, (const uint8_t *)"obsbig")) { out_put("opt-fail"); coap_delete_pdu(p); return; }
+  tracked_send(cs, p);
+  settle(300000);
+  for (int i = 0; i < 2; i++) {
+    obody[0] = (uint8_t)(0xb0 + i);
+    out_put("notify%d", coap_resource_notify_observers(r, NULL));
+    sim_now += 10;
+    settle(300000);
+  }
+  out_put("cancel%d", coap_cancel_observe(cs, &t, COAP_MESSAGE_CON));
+  settle(300000);
+  obody[0] = 0xbf;
+  out_put("notify%d", coap_resource_notify_observers(r, NULL));
+  settle(300000);
+}
+static void scn_cache(void) {
+  static const uint16_t ign1[2] = {COAP_OPTION_ACCEPT, COAP_OPTION_URI_QUERY}, ign2[3] = {COAP_OPTION_ACCEPT, COAP_OPTION_ETAG, COAP_OPTION_RTAG};
+  coap_pdu_t *p, *q = NULL;
+  coap_cache_key_t *k1 = NULL, *k2 = NULL;
+  coap_cache_entry_t *e = NULL;
+  if (!world_up(0, 0) || !add_res("cache", COAP_REQUEST_GET, hnd_cache, 0, NULL)) { out_put("setup-fail"); return; }
+  out_put("ign%d", coap_cache_ignore_options(srv, ign1, 2));
+  out_put("ign%d", coap_cache_ignore_options(srv, ign2, 3));
+  /* through the request handler: create (2.01), find again (2.05 "1p"), let it expire, create again */
+  for (int i = 0; i < 3; i++) {
+    uint8_t t[2];
+    t[0] = 0x65; t[1] = (uint8_t)i;
+    p = new_req(COAP_MESSAGE_CON, COAP_REQUEST_CODE_GET, t, 2, "cache");
+    if (!p) { out_put("pdu-fail"); continue; }
+    tracked_send(cs, p);
+    settle(120000);
+    /* expiry of idle entries is part of coap_io_process() (not of coap_io_prepare_epoll()) */
+    if (i == 1) { sim_now += 3000; coap_io_process(srv, COAP_IO_NO_WAIT); settle(120000); out_put("cb%d", cache_cb); }
+  }
+  /* directly, as a client-side application would: keys with and without the session, an entry that lives until tear-down */
+  q = new_req(COAP_MESSAGE_CON, COAP_REQUEST_CODE_FETCH, (const uint8_t *)"\x65\x09", 2, "cache");
+  if (q && coap_add_option(q, COAP_OPTION_URI_QUERY, 3, (const uint8_t *)"a=b") && coap_add_data(q, 300, body)) {
+    k1 = coap_cache_derive_key(cs, q, COAP_CACHE_IS_SESSION_BASED);
+    k2 = coap_cache_derive_key_w_ignore(cs, q, COAP_CACHE_NOT_SESSION_BASED, ign1, 2);
+    e = coap_new_cache_entry(cs, q, COAP_CACHE_RECORD_PDU, COAP_CACHE_IS_SESSION_BASED, 0);
+    out_put("key%d%d,ent%d", !!k1, !!k2, !!e);
+    if (e) {
+      int *cnt = (int *)malloc(sizeof(int));
+      const coap_pdu_t *kept = coap_cache_get_pdu(e);
+      *cnt = 7; cache_live++;
+      coap_cache_set_app_data(e, cnt, cache_free_cb);
+      out_put("pdu%d", kept ? (int)kept->used_size : -1);
+      if (k1) out_put("bykey%d", coap_cache_get_by_key(cli, k1) == e);
+      out_put("bypdu%d", coap_cache_get_by_pdu(cs, q, COAP_CACHE_IS_SESSION_BASED) == e);
+      if (k2) out_put("other%d", coap_cache_get_by_key(cli, k2) == NULL);
+    }
+  } else out_put("pdu-fail");
+  coap_delete_cache_key(k1);
+  coap_delete_cache_key(k2);
+  coap_delete_pdu(q);
+}
+static void scn_async(void) {
+  coap_pdu_t *p;
+  if (!world_up(0, 0) || !add_res("async", COAP_REQUEST_GET, hnd_async, 0, NULL)) { out_put("setup-fail"); return; }
+  p = new_req(COAP_MESSAGE_CON, COAP_REQUEST_CODE_GET, (const uint8_t *)"\x66\x01", 2, "async");
+  if (p && !coap_add_option(p, COAP_OPTION_URI_QUERY, 1, (const uint8_t *)"t")) { coap_delete_pdu(p); p = NULL; }
+  if (!p) out_put("pdu-fail"); else tracked_send(cs, p);
+  settle(120000);
+  out_put("pending%d", !!g_async);
+  if (g_async) coap_async_trigger(g_async);
+  settle(120000);
+  p = new_req(COAP_MESSAGE_CON, COAP_REQUEST_CODE_GET, (const uint8_t *)"\x66\x02", 2, "async");
+  if (!p) out_put("pdu-fail"); else tracked_send(cs, p);
+  settle(120000);
+  sim_now += 2000;
+  settle(120000);
+}
+
 /* the canary: with memory available a fresh CON GET /r must be answered 2.05 */
 static int canary_once(void) {
   coap_pdu_t *p;
@@ -666,6 +965,7 @@ static int canary_once(void) {
 static const struct { const char *name; void (*fn)(void); } scns[] = {
   {"uri", scn_uri}, {"pdu", scn_pdu}, {"rr", scn_rr}, {"b1", scn_b1}, {"b2", scn_b2}, {"obs", scn_obs},
   {"setup", scn_setup}, {"osc", scn_osc}, {"h508", scn_h508},
+  {"wkc", scn_wkc}, {"b1raw", scn_b1raw}, {"b2raw", scn_b2raw}, {"obsblk", scn_obsblk}, {"cache", scn_cache}, {"async", scn_async},
 };
 
 static void on_alarm(int sig) {
@@ -698,6 +998,10 @@ static void begin_line(void) {
   world_zero();
   oblen = 0; ob[0] = 0; sblen = 0; sb[0] = 0; nsent = 0;
   c_rsp = c_nack = c_body_ok = c_body_bad = 0; s_req = s_put_ok = s_put_bad = 0; obs_val = 0;
+  w_srv_block = w_cli_block = 1;
+  exp_body = body; exp_len = sizeof(body); exp_strict = 0;
+  memcpy(obody, body, sizeof(body));
+  raw2_served = 0; g_async = NULL; cache_cb = 0; cache_live = 0;
   af_count = 0; af_nfailed = 0; af_open = 0;
   tr_reset();
   memset(tr_freed, 0, sizeof(tr_freed));
@@ -741,6 +1045,7 @@ static void do_alloc(char **w, int n) {
   out_put("req%d,rsp%d", s_req, c_rsp);
   for (int i = 0; i < c_rsp && i < 16; i++) out_put("c%d.%02d", c_codes[i] >> 5, c_codes[i] & 31);
   out_put("nack%d,body%d/%d,put%d/%d", c_nack, c_body_ok, c_body_bad, s_put_ok, s_put_bad);
+  exp_strict = 0; exp_body = body; exp_len = sizeof(body);
   /* canary: on the same contexts where they survived (after the outstanding exchanges have run their course) */
   if (srv && cli && ep && cs) {
     int rc;
